@@ -68,7 +68,7 @@ def number_instr(draw):
 def cases(draw):
     xml = draw(gen_xml.documents(max_nodes=35, ids=False, astral=False, prolog_misc=draw(st.booleans()), min_children=draw(st.sampled_from([0, 1, 2]))))
     return {'xml': xml, 'instrs': [draw(number_instr()) for _ in range(draw(st.integers(1, 3)))],
-            'visit': draw(st.sampled_from(['//*', '//*', '//*|//text()', '//node()[not(self::processing-instruction())]', '//a|//b', '//*[not(*)]'])),
+            'visit': draw(st.sampled_from(['//*', '//*', '//*|//text()', '//node()', '//processing-instruction()|//comment()', '//a|//b', '//*[not(*)]'])),
             'orders': draw(st.lists(st.sampled_from(['doc', 'rev', 'mix7', 'mix3']), min_size=2, max_size=3, unique=True))}
 
 
